@@ -609,9 +609,69 @@ def search_C11(seed):
     return None
 
 
+def search_C03(seed):
+    """one vehicle dispatched to one request (in a third of the cases a zero-length trip: pickup and drop-off at the same
+    place, otherwise nearby), stepped a few times: the request is picked up at most once, and a reported pickup has
+    removed the request from the waiting set and credited its fare exactly once"""
+    from nrel.hive.reporting.reporter import ReportType
+    rnd = random.Random(seed)
+    o = rnd.choice(CELLS)
+    d = o if rnd.random() < 0.34 else rnd.choice(CELLS)
+    fare = rnd.choice([5.0, 12.5])
+    env = mock_env().set_reporter(Rep())
+    veh = mock_vehicle_from_geoid(vehicle_id="v0", geoid=o if rnd.random() < 0.7 else rnd.choice(CELLS), soc=1.0)
+    sim = mock_sim(vehicles=(veh,), sim_time=SimTime(600), sim_timestep_duration_seconds=rnd.choice([1, 7, 60]))
+    sim = ops.add_entity(sim, mock_request_from_geoids(request_id="r0", origin=o, destination=d, departure_time=SimTime(500), value=fare))
+    sim = apply_instructions(sim, env, (DispatchTripInstruction("v0", "r0"),))
+    pickups = 0
+    for step in range(6):
+        sim = ops.tick(perform_vehicle_state_updates(sim, env))
+        pickups += sum(1 for r in env.reporter.reports if r.report_type == ReportType.PICKUP_REQUEST_EVENT)
+        env.reporter.reports = []
+        what = f"request r0 from {o} to {d}{' (zero-length trip)' if o == d else ''}, vehicle v0 dispatched to it, step {step + 1}"
+        if pickups > 1:
+            return f"{what}: pickup reported {pickups} times"
+        if pickups == 1 and "r0" in sim.requests:
+            return f"{what}: pickup reported but the request is still waiting"
+        if abs(sim.vehicles["v0"].balance - fare * pickups) > 1e-9:
+            return f"{what}: {pickups} pickup(s) reported, fare {fare}, vehicle balance {sim.vehicles['v0'].balance}"
+    return None
+
+
+def search_C05(seed):
+    """a station defined on several rows of the stations file (random order of plug types, electric and gasoline): every
+    unit of energy sold through any of its plugs shows up in the station's dispensed-energy ledger"""
+    import immutables
+    from nrel.hive.model.station.station import Station
+    from nrel.hive.resources import mock_lobster as ml
+    rnd = random.Random(seed)
+    chargers = {ml.mock_l2_charger_id(): ml.mock_l2_charger(), ml.mock_dcfc_charger_id(): ml.mock_dcfc_charger(),
+                "gas_pump": ml.mock_gasoline_pump()}
+    env = ml.mock_env(chargers=chargers)
+    rn = ml.mock_network()
+    ids = list(chargers)
+    rnd.shuffle(ids)
+    ids = ids[:rnd.randint(1, 3)]
+    builder = {}
+    for cid in ids:
+        row = {"station_id": "s1", "lat": "39.7539", "lon": "-104.974", "charger_id": cid, "charger_count": str(rnd.randint(1, 3)),
+               "on_shift_access": "true"}
+        builder["s1"] = Station.from_row(row, builder, rn, env)
+    stn = builder["s1"]
+    for cid in ids:
+        et = stn.state[cid].charger.energy_type
+        q = rnd.choice([0.5, 1.0, 7.25])
+        before = stn.energy_dispensed.get(et, 0.0)
+        stn = stn.tick_energy_dispensed(immutables.Map({et: q}))
+        after = stn.energy_dispensed.get(et, 0.0)
+        if abs(after - before - q) > 1e-9:
+            return (f"station built from rows {ids}: {q} {et.name} sold through plug {cid}, dispensed ledger went from {before} to {after}")
+    return None
+
+
 def search_C14(seed):
-    """random two-way 4x4 street grids around Denver with link speeds from {15, 40, 60, 110} kmph, node coordinates spelled
-    x/y or lat/lon: the inner part of every route takes the minimum total travel time (independent Dijkstra)"""
+    """random two-way 4x4 street grids around Denver with link speeds from {15, 40, 60, 110} kmph (in half of the grids some links carry no
+    speed label and get the network's default speed, which may exceed every labelled speed), node coordinates spelled x/y or lat/lon: the inner part of every route takes the minimum total travel time (independent Dijkstra)"""
     import heapq, networkx as nx
     from math import asin, cos, radians, sin, sqrt
     from nrel.hive.model.roadnetwork.osm.osm_roadnetwork import OSMRoadNetwork
@@ -628,6 +688,8 @@ def search_C14(seed):
     g = nx.MultiDiGraph()
     for k, (la, lo) in coords.items():
         g.add_node(k, **{lat_key: la, lon_key: lo})
+    unlabelled = rnd.random() < 0.5
+    default_speed = rnd.choice([40.0, 90.0, 130.0]) if unlabelled else 40.0
     table = {}
     for i in range(n):
         for j in range(n):
@@ -637,9 +699,14 @@ def search_C14(seed):
                     for u, v in ((i * n + j, a * n + b), (a * n + b, i * n + j)):
                         sp = rnd.choice([15.0, 40.0, 60.0, 110.0])
                         length = hav(coords[u], coords[v]) * 1.02 + 2.0
-                        g.add_edge(u, v, length=length, speed_kmph=sp)
+                        if unlabelled and rnd.random() < 0.4:
+                            # link without a speed label: the network fills in its default speed
+                            sp = default_speed
+                            g.add_edge(u, v, length=length)
+                        else:
+                            g.add_edge(u, v, length=length, speed_kmph=sp)
                         table[(u, v)] = length / 1000.0 / sp * 3600.0
-    rn = OSMRoadNetwork(g, 15, 40.0)
+    rn = OSMRoadNetwork(g, 15, default_speed)
     links = sorted(rn.link_helper.links.values(), key=lambda l: l.link_id)
     for _ in range(40):
         src, dst = rnd.sample(links, 2)
@@ -671,8 +738,10 @@ def main():
     n = int(sys.argv[3]) if len(sys.argv) > 3 else 150
     if pid == "C01":
         n = min(n, 12)          # six processes per scenario
-    if pid in ("C01", "C06", "C07", "C09", "C11", "C13", "C14", "C15", "C18", "C19", "C20"):
+    if pid in ("C01", "C03", "C05", "C06", "C07", "C09", "C11", "C13", "C14", "C15", "C18", "C19", "C20"):
         fn_, what_ = {"C06": (search_C06, "traverse() over a random multi-link route"), "C13": (search_C13, "route() on an in-memory 4x4 street grid"),
+                      "C03": (search_C03, "one vehicle dispatched to one request (a third of them zero-length trips), six steps"),
+                      "C05": (search_C05, "a station read from several rows of the stations file, energy sold through each plug"),
                       "C14": (search_C14, "route() on a random in-memory street grid with mixed link speeds"),
                       "C01": (search_C01, "one scenario with tied requests, built-in Dispatcher, six interpreter hash seeds"),
                       "C09": (search_C09, "DictOps stack dictionary operations against a list model"),
@@ -681,7 +750,7 @@ def main():
                       "C11": (search_C11, "_add_row_to_this_update on random price rows against a dict model"),
                       "C20": (search_C20, "time_in_range on random times of day and every boundary"),
                       "C15": (search_C15, "crank / batch runner on a fresh simulation with a stateful instruction generator"),
-                      "C19": (search_C19, "construct_station_load_events on a random report tuple")}[pid]
+                      "C19": ((lambda seed_: search_C19(seed_) or search_C03(seed_)), "construct_station_load_events on a random report tuple / pickup events of one dispatched vehicle over six steps")}[pid]
         for k in range(n):
             msg = fn_(seed * 100003 + k)
             if msg:
